@@ -63,6 +63,59 @@ pub fn run_history(prefix: &[Op], hist: &[Op], cfg: &Config, st: &mut Stats) -> 
     None
 }
 
+/// designated large input: one operation batch whose documents exceed the writer's memory budget, so that the
+/// segment is cut by the budget while the batch is being indexed
+pub fn check_big_batch() -> Option<(String, String)> {
+    use tantivy::indexer::UserOperation;
+    let cfg = Config { workers: 1, sort: None, eager_merges: false };
+    let mut h = Harness::create(Box::new(RamDirectory::create()), &cfg).ok()?;
+    let n = 260u64;
+    let mut ops = vec![];
+    for id in 1..=n {
+        let mut d = tantivy::TantivyDocument::default();
+        d.add_u64(h.fields.id, id);
+        d.add_text(h.fields.k, "a");
+        // ~3000 distinct tokens per document
+        let mut body = String::with_capacity(40_000);
+        for t in 0..3000u64 {
+            body.push_str(&format!("w{}x{} ", id, t.wrapping_mul(2654435761) % 100_000));
+        }
+        d.add_text(h.fields.body, body);
+        ops.push(UserOperation::Add(d));
+    }
+    let w = h.writer.as_mut()?;
+    if let Err(e) = w.add_document(make_doc(&h.fields, 1000, "b")) {
+        return Some(("api_call_failed".into(), format!("{e:?}")));
+    }
+    if let Err(e) = w.run(ops) {
+        return Some(("api_call_failed".into(), format!("run(big batch): {e:?}")));
+    }
+    if let Err(e) = w.add_document(make_doc(&h.fields, 1001, "b")) {
+        return Some(("api_call_failed".into(), format!("{e:?}")));
+    }
+    if let Err(e) = w.commit() {
+        return Some(("api_call_failed".into(), format!("commit: {e:?}")));
+    }
+    let searcher = h.index.reader().ok()?.searcher();
+    let mut ids: Vec<u64> = vec![];
+    for seg in searcher.segment_readers() {
+        let col = seg.fast_fields().u64("id").ok()?;
+        for d in seg.doc_ids_alive() {
+            ids.push(col.first(d)?);
+        }
+    }
+    ids.sort();
+    let want: Vec<u64> = (1..=n).chain([1000, 1001]).collect();
+    if ids != want {
+        let missing: Vec<u64> = want.iter().filter(|i| !ids.contains(i)).copied().take(5).collect();
+        return Some(("big_batch_documents_lost".into(), format!("a batch of {n} large documents (+2 single adds) was committed over {} segments: {} documents are searchable, missing ids {missing:?}..", searcher.segment_readers().len(), ids.len())));
+    }
+    if searcher.segment_readers().len() < 2 {
+        return Some(("machinery_big_batch_did_not_cut".into(), "the large batch did not exceed the memory budget (one segment)".into()));
+    }
+    None
+}
+
 pub fn prefixes() -> Vec<Vec<Op>> {
     vec![
         vec![],
@@ -101,24 +154,41 @@ pub fn replay(case: &Value) -> Vec<Violation> {
     quiet_panics();
     let prefix: Vec<Op> = serde_json::from_value(case["prefix"].clone()).unwrap_or_default();
     let hist: Vec<Op> = serde_json::from_value(case["history"].clone()).unwrap_or_default();
-    let cfg: Config = serde_json::from_value(case["config"].clone()).unwrap_or(Config { workers: 1, sort: None });
+    let cfg: Config = serde_json::from_value(case["config"].clone()).unwrap_or(Config { workers: 1, sort: None, eager_merges: false });
+    if case["kind"] == "big_batch" {
+        return check_big_batch().map(|(r, w)| Violation::new(&r, w, case.clone())).into_iter().collect();
+    }
     let flush: Option<u32> = case["flush_after"].as_u64().map(|x| x as u32);
     set_flush_after(flush);
     let mut st = Stats::default();
-    let r = catch_unwind(AssertUnwindSafe(|| run_history(&prefix, &hist, &cfg, &mut st)));
-    set_flush_after(None);
-    match r {
-        Ok(None) => vec![],
-        Ok(Some((r, w))) => vec![Violation::new(&r, w, case.clone())],
-        Err(e) => vec![Violation::new("history_panic", panic_message(e), case.clone())],
+    // with background merges the outcome can depend on timing: a replay gets several attempts
+    let attempts = if cfg.eager_merges { 8 } else { 1 };
+    let mut out = vec![];
+    for _ in 0..attempts {
+        let r = catch_unwind(AssertUnwindSafe(|| run_history(&prefix, &hist, &cfg, &mut st)));
+        match r {
+            Ok(None) => {}
+            Ok(Some((r, w))) => out.push(Violation::new(&r, w, case.clone())),
+            Err(e) => out.push(Violation::new("history_panic", panic_message(e), case.clone())),
+        }
+        if !out.is_empty() {
+            break;
+        }
     }
+    set_flush_after(None);
+    out
 }
 
 /// the phases: (flush_after, workers, depth); the flush hook is process wide, so each worker process runs one phase
 fn phases(thorough: bool) -> Vec<(Option<u32>, usize, usize)> {
     let d_main = if thorough { 5 } else { 4 };
     let d_other = if thorough { 4 } else { 3 };
-    vec![(None, 1, d_main), (Some(1), 1, d_other), (None, 2, d_other), (Some(2), 2, d_other)]
+    // phases 4 and 5 run with the eager merge policy (background merges of committed and uncommitted segments)
+    vec![(None, 1, d_main), (Some(1), 1, d_other), (None, 2, d_other), (Some(2), 2, d_other), (Some(1), 1, d_other), (Some(1), 2, d_other)]
+}
+
+fn cfg_of(phase: usize, workers: usize) -> Config {
+    Config { workers, sort: None, eager_merges: phase >= 4 }
 }
 
 fn work_list(phase: usize, thorough: bool) -> (Vec<Vec<Op>>, Vec<Vec<Op>>, Vec<(usize, usize)>) {
@@ -146,7 +216,7 @@ pub fn worker(family: &str, start: u64, end: u64, step: u64, arg: &str) {
     let thorough = arg == "thorough";
     let (flush, workers, _depth) = phases(thorough)[phase];
     set_flush_after(flush);
-    let cfg = Config { workers, sort: None };
+    let cfg = cfg_of(phase, workers);
     let (pre, hists, work) = work_list(phase, thorough);
     let mut st = Stats::default();
     let mut idx = start;
@@ -190,7 +260,7 @@ pub fn run(ctx: &Ctx) -> Report {
             phase_info.push(json!({"flush_after":flush,"workers":workers,"depth":depth,"histories":work.len(),"completed":0}));
             continue;
         }
-        let cfg = Config { workers, sort: None };
+        let cfg = cfg_of(pi, workers);
         let o = crate::iso::run_isolated(ctx, "C02", &format!("p{pi}"), work.len() as u64, ctx.tier.name());
         complete &= o.complete;
         phase_info.push(json!({"flush_after":flush,"workers":workers,"depth":depth,"histories":work.len(),"completed":o.completed}));
@@ -225,9 +295,17 @@ pub fn run(ctx: &Ctx) -> Report {
         let mid = work[work.len() / 2];
         total.sample(json!({"prefix":pre[mid.0],"history":hists[mid.1],"config":cfg,"flush_after":flush}));
     }
+    // designated large batch (memory-budget cut inside an operation batch)
+    total.eval();
+    match catch_unwind(AssertUnwindSafe(check_big_batch)) {
+        Ok(None) => total.count("big_batch_ok"),
+        Ok(Some((r, w))) if r.starts_with("machinery") => total.errors.push(w),
+        Ok(Some((r, w))) => total.violation(Violation::new(&r, w, json!({"kind":"big_batch"}))),
+        Err(e) => total.violation(Violation::new("history_panic", format!("big batch: {}", panic_message(e)), json!({"kind":"big_batch"}))),
+    }
     rep.set("exhaustive", complete);
     rep.set("phases", Value::Array(phase_info));
-    rep.set("rule", "every history of exactly D operations over the 15-operation alphabet {add a, add b, delete a, delete b, delete last id, delete_query(a AND NOT first id), run([add a, delete a, add a]), delete_all_documents, commit, prepare+payload+commit, prepare+abort, rollback, merge all, drop+reopen, wait_merging_threads+reopen} whose last operation observes (shorter histories are prefixes; a<->b symmetry removed), from the initial state and three non-initial states, under {1 worker}, {1 worker, segment cut after every document}, {2 workers}, {2 workers, cut after 2}: after every observing operation a fresh searcher (ids, keys, stored and fast fields, postings) equals the reference model; opstamps increase, the commit opstamp exceeds them and equals meta.json's. Non-trivial: history with a commit and a delete / rollback / batch; histories are distinct by construction");
+    rep.set("rule", "every history of exactly D operations over the 15-operation alphabet {add a, add b, delete a, delete b, delete last id, delete_query(a AND NOT first id), run([add a, delete a, add a]), delete_all_documents, commit, prepare+payload+commit, prepare+abort, rollback, merge all, drop+reopen, wait_merging_threads+reopen} whose last operation observes (shorter histories are prefixes; a<->b symmetry removed), from the initial state and three non-initial states, under {1 worker}, {1 worker, segment cut after every document}, {2 workers}, {2 workers, cut after 2} and, with a merge policy that merges whenever two segments exist, {1 worker, cut after 1}, {2 workers, cut after 1}; plus one designated operation batch larger than the memory budget: after every observing operation a fresh searcher (ids, keys, stored and fast fields, postings) equals the reference model; opstamps increase, the commit opstamp exceeds them and equals meta.json's. Non-trivial: history with a commit and a delete / rollback / batch; histories are distinct by construction");
     rep.set("states", total.counters.get("observations").copied().unwrap_or(0).max(1));
     rep.set("transitions", total.counters.get("transitions").copied().unwrap_or(0).max(1));
     rep.set("traces_validated_against_impl", total.evaluations);
